@@ -592,6 +592,6 @@ func TestWriterDocuments(t *testing.T) {
 			}
 			return out
 		},
-		Quick: 20000, Thorough: 150000,
+		Quick: 20000, Thorough: 80000,
 	})
 }
